@@ -109,8 +109,20 @@ def miri(seed, repo, log):
                 pass  # timeout: inconclusive, not a violation
             else:
                 what = "Undefined Behavior" if "Undefined Behavior" in se else ("data race" if "Data race" in se else "problem")
-                vios.append(_violation("C01/miri-report/%s" % what.replace(" ", "-"), "Miri (seed %d): %s" % (k, (se[-800:] or so[-800:])), None))
+                m = re.search(r"error: (Undefined Behavior[^\n]*)\n(?:[^\n]*\n){0,3}?\s*--> ([^\n]*)", se)
+                head = ("%s at %s" % (m.group(1), m.group(2))) if m else (se[-800:] or so[-800:])
+                vios.append(_violation("C01/miri-report/%s" % what.replace(" ", "-"), "Miri (seed %d): %s" % (k, head), None))
     return {"status": "ran", "processes": 16, "completed": done, "ops_per_process": ops, "decodes_per_op": 31, "wall_s": round(time.time() - t0, 1)}, vios
+
+
+def _memcheck_headline(se):
+    """first report: its headline and the first frames that lie in the crate under test"""
+    lines = se.splitlines()
+    for i, l in enumerate(lines):
+        if re.search(r"Invalid (read|write)|uninitialised|Invalid free|definitely lost|Mismatched|overlap", l):
+            frames = [x.split("==")[-1].strip() for x in lines[i + 1:i + 25] if "coset::" in x or "/src/" in x][:3]
+            return l.split("==")[-1].strip() + " | " + " | ".join(frames)
+    return se[-600:]
 
 
 def memcheck(build, seed, log):
@@ -131,12 +143,12 @@ def memcheck(build, seed, log):
         for (rc, so, se) in ex.map(one, jobs):
             runs += 1
             if rc == 9 or "ERROR SUMMARY" in se and not re.search(r"ERROR SUMMARY: 0 errors", se) and rc not in (0, None):
-                vios.append(_violation("C01/memcheck-report", "valgrind memcheck: " + se[-800:], None))
+                vios.append(_violation("C01/memcheck-report", "valgrind memcheck: " + _memcheck_headline(se), None))
             elif rc == 1:
                 vios.append(_violation("C01/memcheck-run/problem", "miniwork under memcheck reported: " + so[-600:], None))
     rc, so, se = _run(["valgrind", "-q", "--error-exitcode=9", "--leak-check=full", "--errors-for-leak-kinds=definite,indirect", binp, "oneshot", "--stack", str(8 << 20)], stdin=bombs, timeout=3000)
     if rc == 9:
-        vios.append(_violation("C01/memcheck-report", "valgrind memcheck on the one-shot child: " + se[-800:], None))
+        vios.append(_violation("C01/memcheck-report", "valgrind memcheck on the one-shot child: " + _memcheck_headline(se), None))
     return {"status": "ran", "miniwork_processes": runs, "ops_per_process": 400, "oneshot_inputs": bombs.count("\n"), "wall_s": round(time.time() - t0, 1)}, vios
 
 
